@@ -42,6 +42,9 @@ class References:
     -------
     bool
     """
+    if gfapy.is_placeholder(self.overlaps) and \
+        not isinstance(self.overlaps, list):
+      return True
     return len(self.overlaps) == 1 and gfapy.is_placeholder(self.overlaps[0])
 
   def _initialize_references(self):
